@@ -121,17 +121,21 @@ def run(tier, seed):
                     {"why": p["why"], "string": s, "flags": o["flags"], "src": o["src"]},
                     {"string": s, "flags": o["flags"], "src": o["src"], "typeof": o["t"], "typeof_plus_0": o["tp"], "plus_0": o["vp"]})
     import copy
-    good = next(o for o in obs if o["t"] == "int" and o["s"] == list("0xf") and o["src"] == "field" and not o["flags"])
-    cor = copy.deepcopy(good)
-    cor["vp"] = "16"
-    sb, _ = b3.validate("InferenceObs", [cor, good])
-    st = {"ok": [b[0] for b in sb] == [0]}
+    badset = {idx for idx, _ in bad}
+    good = next((o for k, o in enumerate(obs) if k not in badset and o["t"] == "int" and o["vp"] not in ("", "16") and o["src"] == "field" and not o["flags"] and 1 <= len(o["s"]) <= 3), None)
+    if good is None:
+        st = {"ok": None, "why": "no conforming observation to corrupt"}
+    else:
+        cor = copy.deepcopy(good)
+        cor["vp"] = "16"
+        sb, _ = b3.validate("InferenceObs", [cor, good])
+        st = {"ok": [b[0] for b in sb] == [0]}
     cov["obs_selftest"] = st
-    if not st["ok"]:
+    if st["ok"] is False:
         raise vlib.Inconclusive("observation self-test failed")
     numeric = sum(1 for o in obs if o["t"] in ("int", "float"))
     cov["samples"] += [{"string": "".join(o["s"]), "flags": o["flags"], "src": o["src"], "typeof": o["t"], "plus_0": o["vp"]}
-                       for o in (obs[len(obs) // 3], obs[len(obs) // 2], good)]
+                       for o in (obs[len(obs) // 3], obs[len(obs) // 2], good or obs[0])]
     cov.update({
         "states": states, "transitions": transitions, "traces_validated_against_impl": len(obs),
         "evaluations": len(obs), "distinct_nontrivial": numeric,
